@@ -134,10 +134,16 @@ LINE = st.text(alphabet=st.characters(blacklist_categories=("Cs", "Cc")),
 
 @st.composite
 def st_ds(draw, tier):
-    feats = draw(st.lists(st.sampled_from(SCALAR_F + SCALAR_I + NONSC * 2),
-                          min_size=2, max_size=7, unique=True))
+    # scalar subset + the non-scalar kinds minus a drop mask whose simplest value
+    # is "drop nothing": Hypothesis clumps on simple values, and an essential
+    # class must not depend on luck
+    feats = draw(st.lists(st.sampled_from(SCALAR_F + SCALAR_I),
+                          min_size=1, max_size=4, unique=True))
+    drop = draw(st.sampled_from([0, 0, 0, 1, 2, 4, 8, 5, 10, 3, 12, 14, 13, 11, 7]))
+    feats = feats + [NONSC[i] for i in range(4) if not (drop >> i) & 1]
     n = draw(boundary_n(10, 40))
-    logs = draw(st.lists(st.lists(LINE, min_size=1, max_size=5), max_size=2))
+    logs = draw(st.integers(0, 2).flatmap(lambda k: st.lists(
+        st.lists(LINE, min_size=1, max_size=5), min_size=k, max_size=k)))
     logs = [[ln if ln else "x" for ln in lg] for lg in logs]
     acc = draw(st.lists(st.tuples(
         st.sampled_from(["feat", "feat", "feat", "event", "event", "log",
@@ -154,14 +160,14 @@ def st_ds(draw, tier):
             "chunk": draw(st.sampled_from([100, 100, None])),
             "comp": draw(st.sampled_from(COMPRESSIONS)),
             "logs": logs,
-            "table": draw(st.one_of(st.none(), st.integers(1, 6))),
+            "table": draw(st.sampled_from([None, 1, 2, 5, None, 6])),
             "sample": draw(st.sampled_from(["s1", "Probe ü", "x y"])),
             "acc": [list(a) for a in acc]}
 
 
 def strategy(tier):
-    # ~ 1 dataset case per 11 byte-level machines
-    return st.integers(0, 10).flatmap(
+    # ~ 1 dataset case per 7 byte-level machines
+    return st.integers(0, 7).flatmap(
         lambda i: st_ds(tier) if i == 0 else st_bytes(tier))
 
 
@@ -419,13 +425,11 @@ def _run_bytes(spec, rec):
                                        lambda: f"read(0) at {pos} moved the position "
                                                f"to {got} (L={L})")
                     elif rcls in ("crossing-eof", "beyond-eof"):
-                        ok = rec.check(got >= L, "pos/after-read-beyond-eof",
-                                       lambda: f"{got} < L={L}")
                         pos = max(pos, L)       # file semantics: pos += len(data)
                         ok = rec.check(got == pos, "pos/after-read-beyond-eof",
                                        lambda: f"tell {got} after read({n}) that "
                                                f"returned {len(data)} bytes, expected "
-                                               f"{pos} (L={L})") and ok
+                                               f"{pos} (L={L})")
                     else:
                         pos += n
                         ok = rec.check(got == pos, f"pos/after-read/{rcls}",
